@@ -224,6 +224,7 @@ ROUND4 = {
 
 # ... and the fifth round (DESIGN.md section 19)
 HUNT = {
+ "C20": " After round 5: frames carrying a boolean flag column.",
  "C01": " After round 5: an hourly model fitted on a float32 frame; largest / zero seed profiles; every fitted-model graph also reloads the document with its keys sorted.",
  "C04": " After round 5: the largest accepted hourly seed as a fit realisation.",
  "C02": " After round 5: a model configured with a supplemental categorical column predicting sets with and without it; a refit attempt that fails inside the daily / billing fit.",
